@@ -9,7 +9,7 @@ LevelBound == TLCGet("level") <= Depth
 \* one JSON line per simulated behaviour (spec -> impl replay)
 EmitAtDepth ==
     (TLCGet("level") = Depth) =>
-        PrintT(<<"REPLAY", ToJson([cfg |-> [pathReq |-> opt.pathReq, enc |-> opt.enc, jit |-> opt.jit, retention |-> Retention, window |-> Window, psk |-> pskStore, parties |-> Parties, creator |-> Creator, capX |-> CapX, capY |-> CapY],
+        PrintT(<<"REPLAY", ToJson([cfg |-> [pathReq |-> opt.pathReq, enc |-> opt.enc, jit |-> opt.jit, retention |-> Retention, window |-> Window, psk |-> pskStore, parties |-> Parties, creator |-> Creator, capX |-> CapX, capY |-> CapY, features |-> Features],
                                    steps |-> [i \in 1..Len(hist) |-> hist[i] @@ [aux |-> haux[i]]]])>>)
 
 (***************************************************************************)
@@ -119,6 +119,7 @@ SimPropose ==
     \/ \E p \in Mem : \E e \in {RandomElement(0..grp[p].epoch)} : ProposeResumptionPsk(p, e)
     \/ \E p \in Mem : \E code \in {RandomElement({c \in ReqCodes : Z = 0})} : ProposeGce(p, code)
     \/ \E p \in Mem : ProposeCustom(p)
+    \/ \E r \in OneMem : \E q \in Parties : NewMemberPropose(q, r)
     \/ \E p \in Mem : RandomElement(1..(4 + Z)) = 1 /\ ProposeReinit(p)
 
 SimCommit ==
@@ -190,6 +191,8 @@ SimObs ==
     \/ obs.st = "on" /\ Len(commits) > 0 /\ RandomElement(1..(4 + Z)) = 1 /\ \E n \in {RandomElement(1..Len(commits))} : ObsDeliverCommit(n)
     \/ obs.st = "on" /\ Len(apps) > 0 /\ \E a \in {RandomElement(1..Len(apps))} : ObsDeliverApp(a, apps[a].lo)
     \/ obs.st = "on" /\ RandomElement(1..(6 + Z)) = 1 /\ ObsSnapshotRestore
+    \/ obs.st = "on" /\ \E i \in 1..Len(kps) : ObsPropose("add", i)
+    \/ obs.st = "on" /\ \E l \in {RandomElement(LeafSlots(obs.tree))} : ObsPropose("rem", l)
 
 \* successor groups: key packages of members, creation with the exact member set / one missing / an outsider
 \* added, joins through the right and the wrong API; a by-value re-init commit once the group has some history
